@@ -27,7 +27,7 @@ ASSUMPTIONS = [
 ]
 BUDGET = {"quick": 80, "thorough": 900}
 ROUNDS = {"thorough": 8}
-FLOORS = {"overlay.C11.recomputed": {"quick": 50, "thorough": 800}, "operations": {"quick": 3000, "thorough": 30000}, "comparisons": {"quick": 10000, "thorough": 100000}, "graphs": 6, "op_kinds": 8,
+FLOORS = {"overlay.C11.recomputed": {"quick": 50, "thorough": 800}, "operations": {"quick": 3000, "thorough": 30000}, "comparisons": {"quick": 10000, "thorough": 100000}, "graphs": 7, "op_kinds": 8,
           "handlers_reached": 15}
 
 OPS = ["assign", "assign", "assign", "assign-view", "assign-cat", "assign-transformed", "sample", "rsample", "operator-accept", "operator-reject", "data-edit", "requires-grad"]
@@ -87,15 +87,30 @@ def spec_with_values(spec, values):
     return s
 
 
-def observe(dic, g, ids_eval, ids_derived, tensors):
+def observe(dic, g, ids_eval, ids_derived, tensors, flip=False, attrs_first=False):
+    """flip: accessors that share one dirty flag (rates() / probabilities()) are read in the other order;
+    attrs_first: derived tensors of sub-models are read before the models that use them are called"""
     out = {}
+
+    def attrs():
+        for i, exprs in tensors.items():
+            exprs = [exprs] if isinstance(exprs, str) else list(exprs)
+            for expr in (reversed(exprs) if flip else exprs):
+                v = eval("o." + expr, {"o": dic[i]})
+                out["attr:%s.%s" % (i, expr)] = tt.as_np(v, "C11:not-a-tensor:" + i, expr)
+
+    if attrs_first:
+        attrs()
     for i in ids_eval:
+        if i in g.get("stochastic", ()):
+            import torch
+
+            torch.manual_seed(977)  # objectives that draw samples: the same stream on the primary and on the fresh copy
         out["eval:" + i] = tt.as_np(dic[i](), "C11:not-a-tensor:" + i, i + "()")
     for i in ids_derived:
         out["tensor:" + i] = tt.as_np(dic[i].tensor, "C11:not-a-tensor:" + i, i + ".tensor")
-    for i, expr in tensors.items():
-        v = eval("o." + expr, {"o": dic[i]})
-        out["attr:%s.%s" % (i, expr)] = tt.as_np(v, "C11:not-a-tensor:" + i, expr)
+    if not attrs_first:
+        attrs()
     return out
 
 
@@ -129,8 +144,10 @@ def _run_case(case):
         values = leaf_values()
         _, fresh = tt.load(spec_with_values(g["spec"], values))
         C["rebuilds"] += 1
-        a = observe(dic, g, subset_eval, subset_derived, tensors)
-        b = observe(fresh, g, subset_eval, subset_derived, tensors)
+        flip, first = bool(rng.random() < 0.5), bool(rng.random() < 0.5)
+        C["read_orders"] = sorted(set(C.get("read_orders", [])) | {"%d%d" % (flip, first)})
+        a = observe(dic, g, subset_eval, subset_derived, tensors, flip, first)
+        b = observe(fresh, g, subset_eval, subset_derived, tensors, flip, first)
         for k in a:
             C["comparisons"] += 1
             x, y = a[k], b[k]
@@ -213,6 +230,8 @@ def _run_case(case):
                     # evaluate between proposal and decision, as MCMC.run does
                     sub = [str(x) for x in rng.choice(g["evals"], size=min(2, len(g["evals"])), replace=False)]
                     for i in sub:
+                        if i in g.get("stochastic", ()):
+                            torch.manual_seed(977)  # the stream the observer uses: a cached value must be comparable
                         dic[i]()
                     C["evaluations_between_updates"] += len(sub)
                     if op.endswith("accept"):
